@@ -279,7 +279,11 @@ conn_invariants(void)
 static void conn_prepoll(const struct pollfd * fds, int nfds, int timeout){ conn_invariants();
 	if (active && fk_open_count() == 1 && fk_nsockets() > 0 && fk_fd_of_attempt(fk_nsockets() - 1) >= 0 && fk_is_open(fk_fd_of_attempt(fk_nsockets() - 1)) && !fk_polled(fds, nfds, fk_fd_of_attempt(fk_nsockets() - 1), POLLOUT))
 		FAIL("lost-wakeup", "connection attempt on descriptor %d is not polled for writability: it can never complete", fk_fd_of_attempt(fk_nsockets() - 1));
-	if (active && use_timeo && fk_open_count() == 1 && timeout < 0) FAIL("connect-timeout", "poll without timeout although a per-address timeout was requested"); if (mc_failed()) mc_cut("violation recorded"); conn_state(1, timeout < 0 ? 255 : (timeout > 200 ? 200 : timeout)); }
+	if (active && use_timeo && fk_open_count() == 1 && timeout < 0) FAIL("connect-timeout", "poll without timeout although a per-address timeout was requested");
+	if (active && use_timeo && fk_open_count() == 1 && fk_nsockets() > 0 && timeout >= 0) {
+		long long left = fk_attempt_start(fk_nsockets() - 1) + 5000 - fk_now_us, ceilms = left <= 0 ? 0 : (left + 999) / 1000;
+		if (timeout > ceilms) FAIL("connect-timeout", "poll would wait %d ms although the pending attempt's 5 ms timeout expires in %lld us", timeout, left);
+	} if (mc_failed()) mc_cut("violation recorded"); conn_state(1, timeout < 0 ? 255 : (timeout > 200 ? 200 : timeout)); }
 
 static int sockets_at_end;
 static void
@@ -302,7 +306,7 @@ conn_body(void)
 	use_bind = (use_timeo == 2); if (use_bind) use_timeo = 0;
 	fk_expect_bind = use_bind;
 	if (mc_noting()) { static const char * bn[] = {"socket-fails", "refused", "async-fail", "silent", "async-ok", "immediate", "eintr-then-ok"}; for (i = 0; i < naddr; i++) mc_note("address %d: %s", i, bn[behav[i]]); mc_note("timeout %s%s", use_timeo ? "5 ms per address" : "none", use_bind ? ", bound to a local address" : ""); }
-	if (use_timeo) cookie = network_connect_timeo(sas, &tv, connect_callback, NULL);
+	if (use_timeo) { cookie = network_connect_timeo(sas, &tv, connect_callback, NULL); tv.tv_sec = 3600; tv.tv_usec = 0; /* the caller's struct is its own again after the call */ }
 	else if (use_bind) { static struct sock_addr sab; static struct sockaddr_in sinb; memset(&sinb, 0, sizeof(sinb)); sinb.sin_family = AF_INET; sinb.sin_port = htons(4000); sab.ai_family = AF_INET; sab.ai_socktype = SOCK_STREAM; sab.name = (struct sockaddr *)&sinb; sab.namelen = sizeof(sinb); cookie = network_connect_bind(sas, &sab, connect_callback, NULL); }
 	else cookie = network_connect(sas, connect_callback, NULL);
 	if (cookie == NULL) { FAIL("register", "network_connect returned NULL"); return; }
